@@ -13,6 +13,7 @@ EXPLANATION = (
     "under a shared borrow, the borrow checker cannot stop such a function from running while they are live; each "
     "such path is a violation (today: Store::store_event -> EventStore::store_event -> MmapAppend::resize -> remap, a "
     "recorded known finding). Whether the kernel actually moves a given mapping is not decided.")
+EXPLANATION += " Also decided (3): bytes handed out cannot change under a live reference through pocket-db's own code: only EventStore::store_event reaches the appender, the appender writes at and beyond the end marker before publishing it, and no function of pocket-db writes to the file through a file handle or obtains a mutable pointer into the map."
 ASSUMPTIONS = ["rustdoc's compile_fail verdict with an error code (nightly) is a faithful type-check"]
 
 WITNESSES = {
